@@ -503,7 +503,8 @@ def fam_ro(prop, kset, n_prog, n_ops, salt=0):
             if variant == 1:
                 end_setup = "abandon"  # volume is dirty at the next mount
             elif variant == 2 and kname.startswith("K5"):
-                poke = [[512 + 488, [255, 255, 255, 255]]]  # FSInfo free count unknown
+                # FSInfo free count unknown, or stale / foreign: larger than the volume
+                poke = [[512 + 488, rng.choice([[255, 255, 255, 255], [0, 0, 0, 1], [255, 255, 255, 15], [0xBA, 5, 1, 0]])]]
             elif variant == 3 and kname.startswith("K5"):
                 poke = [[512 + 492, [255, 255, 255, 255]]]  # FSInfo next-free hint unknown
             elif variant == 4:
@@ -687,7 +688,10 @@ def c15():
                 "position, astral samples, lengths 0..300 with 1-4 byte characters, every character whose upper-case expansion differs paired with its folded "
                 "partner and near misses, alias lookups, renames to invalid names; TLC (Names!NameErrors, fold keys from the std table) judges every result, "
                 "the stored name and every lookup",
-                ASSUME_TRACE + ["the upper-case table emitted from Rust std is the fold the `unicode` feature documents"])
+                ASSUME_TRACE + ["the upper-case table emitted from Rust std is the fold the `unicode` feature documents"],
+                # "lookups match it, and its short alias, and match nothing else": two entries of one directory answering to the same long
+                # or short name make every lookup of that name ambiguous
+                extra_prefixes=("C00.", "C03.dup_long", "C03.dup_short", "C03.dup_cross", "C16.unique"))
 
 
 def c16():
@@ -707,6 +711,9 @@ def c16():
                 ["%s.txt" % ("x" * k) for k in range(1, min(pop, 200))],
                 ["\u00e9t\u00e9-%d.doc" % i for i in range(pop // 2)] + ["a b.c d-%d" % i for i in range(pop // 2)],
                 ["FOO~1.TXT", "foo~1.txt", "foooooooo.txt", "foooooooo1.txt", "FOOOOO~1.TXT", "fo0123~1.txt", ".hidden", "..x", "a+b,c;d=e[f].g h"],
+                # long names that contain the tilde themselves, in front of where the numeric tail goes
+                ["~$Report Q%d.docx" % i for i in range(min(pop, 12))] + ["my~notes chapter %d.txt" % i for i in range(min(pop, 12))]
+                + ["a~b~c long name %d.txt" % i for i in range(6)] + ["~~~~~~~~~ %d.t" % i for i in range(6)] + ["x~1 y %d.dat" % i for i in range(6)],
                 # names whose 8.3 base is empty (only spaces and dots before the extension): the alias is ~N.EXT
                 [b + e for e in (".txt", ".a") for b in (" ", "  ", "   ", ". ", " .", ".. ", " . ", "    ")][:max(6, min(pop, 16))] + [" x", "  x", ".x", "..x"],
             ]
